@@ -69,6 +69,7 @@ type replayFile struct {
 	Tail      []string               `json:"events_tail"`
 	Hash      string                 `json:"schedule_hash"`
 	Shrunk    bool                   `json:"shrunk"`
+	SeedOnly  bool                   `json:"seed_only,omitempty"` // no tape recorded: regenerate the run from the seed
 }
 
 func runOne(seed uint64, prof profile, tape *rt.Tape, jb *job) (res runResult, run *simRun) {
@@ -225,6 +226,9 @@ func TestSimWorker(t *testing.T) {
 		jb.Scale = rf.Scale
 		jb.Prop = rf.Target
 		tape := rt.NewReplayTape(rf.Seed, rf.Tape)
+		if rf.SeedOnly {
+			tape = rt.NewTape(rf.Seed)
+		}
 		var res runResult
 		var run *simRun
 		func() {
